@@ -900,11 +900,14 @@ impl<'a> ArxmlParser<'a> {
                     let mut valid = false;
                     if let Some(endpos) = rem.find(';') {
                         let hextxt = &rem[3..endpos];
-                        if let Ok(hexval) = u32::from_str_radix(hextxt, 16) {
-                            if let Some(ch) = char::from_u32(hexval) {
-                                unescaped.push(ch);
-                                rem = &rem[endpos + 1..];
-                                valid = true;
+                        // only hex digits are allowed here; from_str_radix would also accept a leading '+'
+                        if hextxt.bytes().all(|c| c.is_ascii_hexdigit()) {
+                            if let Ok(hexval) = u32::from_str_radix(hextxt, 16) {
+                                if let Some(ch) = char::from_u32(hexval) {
+                                    unescaped.push(ch);
+                                    rem = &rem[endpos + 1..];
+                                    valid = true;
+                                }
                             }
                         }
                     }
@@ -920,11 +923,14 @@ impl<'a> ArxmlParser<'a> {
                     let mut valid = false;
                     if let Some(endpos) = rem.find(';') {
                         let numtxt = &rem[2..endpos];
-                        if let Ok(val) = u32::from_str(numtxt) {
-                            if let Some(ch) = char::from_u32(val) {
-                                unescaped.push(ch);
-                                rem = &rem[endpos + 1..];
-                                valid = true;
+                        // only decimal digits are allowed here; from_str would also accept a leading '+'
+                        if numtxt.bytes().all(|c| c.is_ascii_digit()) {
+                            if let Ok(val) = u32::from_str(numtxt) {
+                                if let Some(ch) = char::from_u32(val) {
+                                    unescaped.push(ch);
+                                    rem = &rem[endpos + 1..];
+                                    valid = true;
+                                }
                             }
                         }
                     }
